@@ -182,14 +182,14 @@ impl WebAnnoConfig {
                 out += &format!(
                     "[ \"{}\", {}, {{ {} }} ]",
                     CONTEXT_ANNO,
-                    self.extra_context.join(", "),
+                    self.serialize_extra_context(),
                     self.serialize_context_namespaces(),
                 );
             } else {
                 out += &format!(
                     "[ \"{}\", {} ]",
                     CONTEXT_ANNO,
-                    self.extra_context.join(", ")
+                    self.serialize_extra_context()
                 );
             }
         } else if !self.context_namespaces.is_empty() {
@@ -204,14 +204,20 @@ impl WebAnnoConfig {
         out
     }
 
+    /// The extra context URLs as JSON strings, comma separated
+    fn serialize_extra_context(&self) -> String {
+        let urls: Vec<String> = self.extra_context.iter().map(|url| json_str(url)).collect();
+        urls.join(", ")
+    }
+
     fn serialize_context_namespaces(&self) -> String {
         let mut out = String::new();
         for (uri, namespace) in self.context_namespaces.iter() {
             out += &format!(
-                "{}\"{}\": \"{}\"",
+                "{}{}: {}",
                 if out.is_empty() { "" } else { ", " },
-                namespace,
-                uri,
+                json_str(namespace),
+                json_str(uri),
             );
         }
         out
